@@ -271,15 +271,43 @@ REQS_CLS = [
 ]
 
 
+MASSIGN = '''\
+class Bar(object):
+    def bar_method(self): pass
+class Foo(object):
+    def make(self):
+        return Bar()
+x = Foo().make()
+x.attr = 1
+'''
+REQS_ASSIGN = [
+    ('assist', 'from massign import x\nx.', (2, 2)),
+    ('assist', 'from massign import Foo\nFoo().', (2, 6)),
+    ('assist', 'from massign import Bar\nBar().', (2, 6)),
+    ('location', 'from massign import x\nx.attr\n', (2, 6)),
+]
+CYC_A = 'from cycb import *\nclass A(object):\n    def am(self): pass\n'
+CYC_B = 'from cyca import *\nclass B(object):\n    def bm(self): pass\n'
+REQS_CYCLE = [
+    ('assist', 'import cyca\ncyca.', (2, 5)),
+    ('assist', 'import cycb\ncycb.', (2, 5)),
+    ('lint', 'from cycb import *\nprint(A, B)\n', None),
+    ('lint', 'from cyca import *\nprint(A, B)\n', None),
+]
+
+
 def project_search(part, which='loop'):
     import tempfile
     import shutil
     out = []
-    REQS = REQS_LOOP if which == 'loop' else REQS_CLS
+    REQS = {'loop': REQS_LOOP, 'cls': REQS_CLS, 'assign': REQS_ASSIGN, 'cycle': REQS_CYCLE}[which]
     root = tempfile.mkdtemp(prefix='c04proj')
     try:
         open(os.path.join(root, 'mloop.py'), 'w').write(MLOOP)
         open(os.path.join(root, 'mcls.py'), 'w').write(MCLS)
+        open(os.path.join(root, 'massign.py'), 'w').write(MASSIGN)
+        open(os.path.join(root, 'cyca.py'), 'w').write(CYC_A)
+        open(os.path.join(root, 'cycb.py'), 'w').write(CYC_B)
         shutil.copy(os.path.join(nc.PROJECT_DIR, 'm2.py'), root)
         x = os.path.join(root, 'x.py')
 
@@ -312,7 +340,7 @@ def project_search(part, which='loop'):
         def on_transition(hist, ev, obs):
             if obs != ref[ev] and ev not in bad:
                 bad.add(ev)
-                out.append(('project-history-dependent:%s' % REQS[ev][0],
+                out.append(('project-history-dependent:%s:%s' % (which, REQS[ev][0]),
                             'request %r answers %s after request history %s on one Project but %s on a fresh Project' % (
                                 REQS[ev], obs[:300], hist, ref[ev][:300]),
                             {'kind': 'project', 'which': which}))
@@ -509,7 +537,7 @@ def run(ctx):
     units += [(unit_progs, (ctx.tier, lo, min(len(sp), lo + 2))) for lo in range(cheap, len(sp), 2)]
     units += [(unit_text, (t, 2 if ctx.quick else 3)) for t in CYCLIC]
     units += [(unit_file, f) for f in sorted(set(repo_files(ctx.tier)))]
-    units += [(unit_project, 'loop'), (unit_project, 'cls')]
+    units += [(unit_project, 'loop'), (unit_project, 'cls'), (unit_project, 'assign'), (unit_project, 'cycle')]
     ctx.pmap(_dispatch, ctx.shuffled(units), chunksize=1)
     c = ctx.counters
     ex = sp[len(sp) // 2]
